@@ -163,3 +163,21 @@ def run(pid, tier, seed, args):
     print("C20 %s: evaluations=%d crash_images=%d wall=%.1fs violations=%d (unlisted %d)" % (
         tier, n_eval, n_img, time.time() - t0, len(viols), n_unknown))
     return 1 if n_unknown else 0
+
+
+def replay(path):
+    """the families are tiny: re-run them and show the violations of the recorded case"""
+    seams.install()
+    with open(path) as f:
+        rp = json.load(f)
+    want = rp.get("history") or {}
+    viols = []
+    for content in ("empty", "one", "fifty", "extremes"):
+        viols += one_content(content)[0]
+    bad = [v for v in viols if v["clause"] == rp.get("clause") and (v.get("history") or {}) == want] or \
+        [v for v in viols if v["clause"] == rp.get("clause")]
+    for v in bad[:5]:
+        print("  -> VIOLATED clause=%s case=%s detail=%s" % (v["clause"], json.dumps(v.get("history"), default=repr),
+                                                        json.dumps(v["detail"], default=repr)[:1500]))
+    print("replay: %d violation(s)" % len(bad))
+    return 1 if bad else 0
